@@ -466,4 +466,26 @@ theorem cut_absent_unspecified :
     pathShortDoc (1/8) exNoLen "A" "B" = some true ∧ pathShortDoc (1/8) exZeroLen "A" "B" = some true ∧
     sameBag (cut (1/8) exNoLen) "A" "B" = true ∧ sameBag [["A"], ["B"]] "A" "B" = false := by decide +kernel
 
+/-! ## Round 4 -/
+
+/-- The average does not depend on the `Id` fields of the channel records: collections with the
+    same trees in the same order and any Ids (unset, starting anywhere, with gaps, descending)
+    have the same outcome — for unique names the mean over the NUMBER of trees of `avg_is_mean`. -/
+theorem avg_ignores_ids (mi : Int) (items items' : List (Int × T)) (h : items.map (·.2) = items'.map (·.2)) :
+    Go.avgDistanceMatrixIds mi items = Go.avgDistanceMatrixIds mi items' ∧
+    ((∀ it ∈ items, it.2.tipNames.Nodup) →
+      Go.avgDistanceMatrixIds mi items =
+        match avgMatrix (metricOf mi) (items.map (·.2)) with
+        | some r => .ok r
+        | none => .err avgMsg) := by
+  refine ⟨by unfold Go.avgDistanceMatrixIds; rw [h], fun hu => ?_⟩
+  unfold Go.avgDistanceMatrixIds
+  exact avgGo_is_avg_uniq mi _ (fun t ht => by
+    obtain ⟨it, hit, rfl⟩ := List.mem_map.1 ht
+    exact hu it hit)
+
+/- two trees with the Ids 0,1 / 7,7: the mean divides by 2 -/
+example : Go.avgDistanceMatrixIds 0 [(0, exAb), (1, exAb)] = .ok (["a", "b"], [[0, 3], [3, 0]]) ∧
+    Go.avgDistanceMatrixIds 0 [(7, exAb), (7, exAb)] = .ok (["a", "b"], [[0, 3], [3, 0]]) := by decide +kernel
+
 end Gotree.C14
